@@ -53,7 +53,7 @@ Theorem instantiation_complete : forall u ops n nd sat imps,
   get_node (run u ops) n = Some nd -> nk nd = NInst sat -> inst_imports u (run u ops) nd = Some imps ->
   Permutation (explicit_idx (run u ops) n ++ implicit_idx sat (length imps)) (seq 0 (length imps)) /\
   (forall i, In i (explicit_idx (run u ops) n) -> ~ In i (implicit_idx sat (length imps))).
-Proof. intros u ops. apply idx_complete_checked; [apply GraphTheorems.reach_inv|apply reach_args_checked]. Qed.
+Proof. intros u ops n nd sat imps. apply (idx_complete_checked u (run u ops) n nd sat imps (GraphTheorems.reach_inv u ops) (reach_args_checked u ops)). Qed.
 Print Assumptions instantiation_complete.
 
 (** ... so the instantiate item the specification (and, by C02, the encoder) emits carries the import names of the
@@ -62,7 +62,7 @@ Theorem instantiation_complete_names : forall e u ops dc ord n nd sat imps,
   get_node (run u ops) n = Some nd -> nk nd = NInst sat -> inst_imports u (run u ops) nd = Some imps ->
   exists args, spec_inst e u (run u ops) dc ord n = WInst (comp_prov e (run u ops) dc n) args /\
     same_names (map arg_name args) (map (fun x : name * kid => nstr e (fst x)) imps).
-Proof. intros e u ops dc ord. apply spec_inst_complete_checked; [apply GraphTheorems.reach_inv|apply reach_args_checked]. Qed.
+Proof. intros e u ops dc ord n nd sat imps. apply (spec_inst_complete_checked e u (run u ops) dc ord n nd sat imps (GraphTheorems.reach_inv u ops) (reach_args_checked u ops)). Qed.
 Print Assumptions instantiation_complete_names.
 
 Theorem same_names_decides : forall a b, same_namesb a b = true <-> same_names a b.
